@@ -53,6 +53,11 @@ pub struct Replica {
     /// updates (indices into `World::updates`) whose content this replica has been given
     pub received: BTreeSet<usize>,
     pub log: Rc<RefCell<EvLog>>,
+    /// when set on a replica with automatic format clean-up, every applied update is also applied
+    /// to a clean-up-free twin rebuilt from this replica's full state; the first difference of what
+    /// the two show afterwards is kept here ("clean-up only removes marks that change nothing")
+    pub twin_check: std::cell::Cell<bool>,
+    pub twin_fail: RefCell<Option<String>>,
     _subs: Vec<Subscription>,
 }
 
@@ -75,6 +80,8 @@ impl Replica {
             roots,
             received: BTreeSet::new(),
             log,
+            twin_check: std::cell::Cell::new(false),
+            twin_fail: RefCell::new(None),
             _subs: vec![s1, s2],
         }
     }
@@ -113,11 +120,37 @@ impl Replica {
     }
 
     pub fn apply(&self, bytes: &[u8], v2: bool) -> Result<(), String> {
-        if v2 {
-            self.apply_v2(bytes)
-        } else {
-            self.apply_v1(bytes)
+        let twin = if self.twin_check.get() && self.cfg.cleanup && self.twin_fail.borrow().is_none() { self.cleanup_free_twin() } else { None };
+        let r = if v2 { self.apply_v2(bytes) } else { self.apply_v1(bytes) };
+        if let (Some(t), Ok(())) = (twin, &r) {
+            if t.apply(bytes, v2).is_ok() {
+                let (a, b) = (self.dump(), t.dump());
+                if a != b {
+                    *self.twin_fail.borrow_mut() = Some(first_diff(&a, &b).unwrap_or_default());
+                }
+            }
         }
+        r
+    }
+
+    /// a replica without format clean-up that holds exactly what this one holds (stash included)
+    fn cleanup_free_twin(&self) -> Option<Replica> {
+        // a stash travels inside of the full state as one merged update and may then be
+        // integrated in a different grouping (finding G6): compare from gap-free states only
+        if !self.gap_free() {
+            return None;
+        }
+        let mut cfg = self.cfg.clone();
+        cfg.cleanup = false;
+        cfg.client = 9_998;
+        let t = Replica::new(cfg);
+        let state = self.doc.transact().encode_state_as_update_v1(&StateVector::default());
+        t.apply_v1(&state).ok()?;
+        // the twin has to start from what this replica shows, otherwise it proves nothing
+        if t.dump() != self.dump() {
+            return None;
+        }
+        Some(t)
     }
 
     /// no stash and no skipped ranges: everything this replica was given is integrated
